@@ -13,7 +13,7 @@ import GMModel.PyStr
   The model is of the code AS REPAIRED for
     D2: `_setup_write_file` initialises `_format["velocities"]` independently of the position format,
     D3: `parse_atomlist` wraps numbers modulo 100000,
-    D11: the `comment` setter and `_setup_write_file` test `endswith("\n")` instead of indexing `[-1]`
+    D13: the `comment` setter and `_setup_write_file` test `endswith("\n")` instead of indexing `[-1]`
          (an empty title no longer raises `IndexError`).
 -/
 
@@ -197,7 +197,7 @@ def WState.countLine (s : WState) : List Nat :=
   | some n => intBody n ++ [nl]
 
 /-- the header part of `_setup_write_file`: comment (terminated unless it already ends in a newline —
-    as repaired, D11: `comment.endswith("\n")`, so that an empty comment is a valid title),
+    as repaired, D13: `comment.endswith("\n")`, so that an empty comment is a valid title),
     count line, `_init_position = tell()` -/
 def writeHeader (s : WState) (comment : List Nat) : WState :=
   let s1 := s.write comment
@@ -275,7 +275,7 @@ def closeOp (s : WState) : WState × Option PyErr :=
 /-- one client operation; the second component is the exception raised, if any (the state is the
     one left behind by the partially executed method) -/
 def step (s : WState) : Op → WState × Option PyErr
-  | .setComment v => ({ s with comment := some (chopNl v) }, none)   -- as repaired, D11: `value.endswith`
+  | .setComment v => ({ s with comment := some (chopNl v) }, none)   -- as repaired, D13: `value.endswith`
   | .setBox b => ({ s with box := b.toBox }, none)
   | .setNatoms n => ({ s with natoms := some n }, none)
   | .setPosFmt w d => ({ s with fmtPos := some (w, d) }, none)
